@@ -196,6 +196,19 @@ class C08(Prop):
             if not np.all(np.isfinite(d0)) or np.linalg.norm(d0) < 1e-8:
                 r.rejected = "guess preparation produced a vanishing state"
                 return r
+        if case["mpo_algo"] == "qr":
+            # the bound is a statement about the operator handed to the optimiser: with the QR construction that operator
+            # differs from the term list by up to ~1e-7 relative (C01's subject, tolerance there 1e-7), which would show up
+            # here as an apparent violation of the variational bound by the same amount
+            try:
+                Hlib = sum(np.asarray(m.todense()) for m in (mpo.mpos if isinstance(mpo, StackedMpo) else [mpo]))
+                if Hlib.shape == H.shape and np.linalg.norm(Hlib - H) <= 1e-6 * max(np.linalg.norm(H), 1e-300):
+                    H = Hlib
+                    Hs = H[np.ix_(mask, mask)]
+                    Hs = (Hs + Hs.conj().T) / 2
+                    evals = np.linalg.eigvalsh(Hs)
+            except Exception:  # noqa
+                pass
         mpo_complex = any(m.is_complex for m in (mpo.mpos if isinstance(mpo, StackedMpo) else [mpo]))
         if mpo_complex:
             # precondition: a complex Hamiltonian needs a complex trial state (the optimizer writes the complex
@@ -233,12 +246,15 @@ class C08(Prop):
                 return r
             r.fail(f"optimize.{sig}", f"{e!r} method={case['method']} algo={case['algo']} nroots={nroots} omega={omega} dimq={dimq}")
             return r
-        tol = 1e-8 * max(hn, 1.0)
+        # direct solver: rounding.  Davidson (vendored PySCF routine, lindep 1e-14): Ritz values are variational only up to the
+        # loss of orthogonality it tolerates, ~sqrt(lindep) = 1e-7 relative (seen in C12: -1.0000000104 for an exact -1)
+        stol = 1e-8 if case["algo"] != "davidson" else 1e-7
+        tol = stol * max(hn, 1.0)
         if omega is None:
             exact = evals
         else:
             exact = np.sort((evals - omega) ** 2)
-            tol = 1e-8 * max((abs(omega) + hn) ** 2, 1.0)
+            tol = stol * max((abs(omega) + hn) ** 2, 1.0)
         # (i) every reported energy is an upper bound of the corresponding exact eigenvalue in the sector
         for isw, e in enumerate(energies):
             ev = np.sort(np.atleast_1d(np.asarray(e, dtype=float)))
